@@ -80,7 +80,7 @@ Lemma pl_L f b : ubj_payload (S f) mL b =
   match take 8 b with Some (a, r) => RValue (CNum (CInt (wraps 64 (be_dec a)))) r | None => RTruncated end.
 Proof. reflexivity. Qed.
 Lemma pl_C f b : ubj_payload (S f) mC b =
-  match take 1 b with Some (a, r) => RValue (CNum (CInt (be_dec a))) r | None => RTruncated end.
+  match b with c :: r => if c >? 127 then RMalformed else RValue (CNum (CInt c)) r | [] => RTruncated end.
 Proof. reflexivity. Qed.
 Lemma pl_d f b : ubj_payload (S f) md b =
   match take 4 b with Some (a, r) => RValue (CNum (CF32 (be_dec a))) r | None => RTruncated end.
@@ -183,8 +183,9 @@ Proof.
     destruct (i <? 0) eqn:E; [lia | reflexivity].
 Qed.
 
-Lemma char_dec z : pdec mC [z] (CNum (CInt z)).
-Proof. intros f rest. rewrite pl_C. cbn [app]. rewrite take_1, be_dec_1. reflexivity. Qed.
+(* a char holds 0..127 (draft 12): a larger byte under 'C' is malformed *)
+Lemma char_dec z : (z >? 127) = false -> pdec mC [z] (CNum (CInt z)).
+Proof. intros Hz f rest. rewrite pl_C. cbn [app]. rewrite Hz. reflexivity. Qed.
 
 Lemma f32_dec z : in_u 32 z = true -> pdec md (be_enc 4 z) (CNum (CF32 z)).
 Proof.
@@ -477,7 +478,9 @@ Proof.
     + apply gd_onint32; exact Hok.
     + apply gd_onint64; exact Hok.
     + apply gd_onint; exact Hok.
-    + apply (gooddec_of_pdec mC [z]); [reflexivity | apply char_dec].
+    + destruct (z >? 127) eqn:E127.
+      * apply gd_uint8; exact Hok.
+      * apply (gooddec_of_pdec mC [z]); [reflexivity | apply char_dec; exact E127].
     + apply gd_uint8; exact Hok.
     + apply gd_uint. apply (in_u_64 16); [lia | exact Hok].
     + apply gd_uint. apply (in_u_64 32); [lia | exact Hok].
